@@ -89,3 +89,42 @@ def Cell.resort : Cell → Cell
   | c => c
 
 end Einx.Denote
+
+namespace Einx.Denote
+open Einx Einx.IR
+open Einx.Update (mapOpt)
+
+/-! ### id with concatenations: the general functional form -/
+
+/-- The virtual (concatenation-free) inputs of `id`, in einx's enumeration order, with the index and the shape of the
+real input tensor they are a block of. -/
+def idVin (exprsIn : List Expr) : List (List Dim × Nat × List Nat) :=
+  (exprsIn.zipIdx).flatMap (fun (x : Expr × Nat) => (views x.1).map (fun v => (v, x.2, shapeOf x.1)))
+
+/-- The virtual outputs with the index of the real output tensor they are a block of. -/
+def idVout (exprsOut : List Expr) : List (List Dim × Nat) :=
+  (exprsOut.zipIdx).flatMap (fun (x : Expr × Nat) => (views x.1).map (fun v => (v, x.2)))
+
+/-- The entries that the `j`-th pair (virtual input, virtual output) writes into its real output tensor. -/
+def idPairEntries (exprsOut : List Expr) (x : (List Dim × Nat × List Nat) × (List Dim × Nat)) : Option (List (Nat × Cell)) :=
+  mapOpt (idEntry x.1.1 x.1.2.2 x.1.2.1 x.2.1 (shapeOf (exprsOut.getD x.2.2 (Expr.list []))))
+    (assignments (axesOf (Dim.leavesL x.2.1)))
+
+/-- All entries written into real output `k`, in order. -/
+def entriesFor (k : Nat) (kes : List (Nat × List (Nat × Cell))) : List (Nat × Cell) :=
+  (kes.filter (fun ke => ke.1 == k)).flatMap (fun ke => ke.2)
+
+/-- `id` for arbitrary solved expressions (concatenations included), without loops: pair the virtual inputs with the
+virtual outputs, collect the entries of every pair, and gather per real output tensor. -/
+def denoteIdFunG (exprsIn exprsOut : List Expr) : Option (List (Tensor Cell)) :=
+  let ps := List.zip (idVin exprsIn) (idVout exprsOut)
+  if (idVin exprsIn).length != (idVout exprsOut).length then none
+  else
+    match mapOpt (idPairEntries exprsOut) ps with
+    | none => none
+    | some ess =>
+      mapOpt (fun (x : Expr × Nat) =>
+        (gatherAll (prod (shapeOf x.1)) (entriesFor x.2 (List.zip (ps.map (fun p => p.2.2)) ess))).map
+          (fun cs => (⟨shapeOf x.1, cs⟩ : Tensor Cell))) exprsOut.zipIdx
+
+end Einx.Denote
